@@ -97,6 +97,19 @@ class CrashRecorder:
     self.images.append(img)
 
 
+def find_engine(datastore):
+  """The SQLAlchemy engine of a datastore, whatever the attribute is called."""
+  import sqlalchemy  # pylint: disable=g-import-not-at-top
+  for val in vars(datastore).values():
+    if isinstance(val, sqlalchemy.engine.Engine):
+      return val
+  for val in vars(datastore).values():
+    eng = getattr(val, 'engine', None)
+    if isinstance(eng, sqlalchemy.engine.Engine):
+      return eng
+  raise AttributeError('no SQLAlchemy engine found on the datastore')
+
+
 def copy_image(img_dir, dst):
   shutil.copytree(img_dir, dst)
   return dst
